@@ -67,7 +67,7 @@ def _gen_index():
     return "\n".join(out)
 
 
-U9_POP = list(range(0, 65))
+U9_POP = [0, 1, 2, 3, 4, 5, 6, 7, 8, 12, 16, 56, 60, 61, 62, 63, 64]  # all 2^64 masks are covered unboundedly by the Verus unit log_mask_walk
 M_INDEX = KModule("index", "src/index.rs", "verif_index", "index.rs", _gen_index)
 for n in ["u1_entry_codec", "u1_extract_key_slices", "u1_address_codec", "u1_table_id"]:
     M_INDEX.harnesses.append(H(n, "U1"))
@@ -95,8 +95,9 @@ for i in range(64):
     M_INDEX.harnesses.append(H("u3_remove_i%d" % i, "U3", tiers=tr, shape="plan_remove_chunk at slot %d" % i))
 M_INDEX.harnesses.append(H("canary_u3", "U3", kind="canary"))
 for k in U9_POP:
-    M_INDEX.harnesses.append(H("u9_index_pop%d" % k, "U9", tiers=("quick", "thorough") if k in (0, 1, 2, 3, 64) else ("thorough",),
-                               shape="IndexTable::validate_plan / skip_plan, mask with %d set bit(s) (positions symbolic)" % k))
+    M_INDEX.harnesses.append(H("u9_index_pop%d" % k, "U9", kind="proof" if k in (0, 64) else "bounded", tiers=("quick", "thorough") if k in (0, 1, 2, 3, 64) else ("thorough",),
+                               shape="IndexTable::validate_plan / skip_plan, mask with %d set bit(s) (positions symbolic)" % k,
+                               bound="popcount classes %s (cross-check on the real LogReader type; all masks: Verus log_mask_walk)" % U9_POP))
 M_INDEX.harnesses.append(H("canary_u9_index", "U9", kind="canary"))
 
 
@@ -390,10 +391,10 @@ PROPS["C14"] = {
 }
 PROPS["C13"] = {
     "kani_units": ["U9"],
-    "verus_units": [],
+    "verus_units": ["log_mask_walk"],
     "level": "proof",
     "technique": "Kani/CBMC contracts on the real validate_plan functions with LogReader::read replaced by its contract (arbitrary bytes or failure)",
-    "claim": "For every byte content of a log record and every index: ValueTable::validate_plan, IndexTable::validate_plan / skip_plan and RefCountTable::validate_plan return Ok or Err without panicking or reading outside their buffers; a value record accepted by validation is at most entry_size bytes (fits its slot) and an index / ref-count record accepted by validation names a chunk inside the file; validation and skipping consume 8 + 8*popcount(mask) bytes (bounded popcount classes).",
+    "claim": "For every byte content of a log record and every index: ValueTable::validate_plan, IndexTable::validate_plan / skip_plan and RefCountTable::validate_plan return Ok or Err without panicking or reading outside their buffers; a value record accepted by validation is at most entry_size bytes (fits its slot) and an index / ref-count record accepted by validation names a chunk inside the file; validation and skipping of index / ref-count chunk records consume exactly 8 + ENTRY_BYTES*popcount(mask) bytes and terminate, for every 64-bit mask (Verus, unbounded; Kani cross-checks popcount classes on the real LogReader type).",
     "level_note": "Trusted: LogReader::read contract (fills the buffer or fails), crc32fast constructor stub. CRC computation/comparison, record-id sequencing, clear_replay_logs, discarding later files are in LogReader::next / DbInner::enact_logs / Log::open (BufReader<File> closures, directory scans) and are not covered. enact_plan is not run (mmap / 32 KiB-buffer cost); 'apply parses as validate does' is argued from the identical code shape, not proved. Two genuine defects found by these obligations were fixed (known_findings.json).",
     "trusted_base": TB,
     "explanation": "Loop-free (value) or constant-bounded (mask walk, popcount classes) harnesses over fully symbolic records.",
@@ -483,6 +484,8 @@ UNIT_META = {
     "tree_deref": {"functions": ["db::IndexedChangeSet::write_dereference_children_plan"],
                    "assumes": ["HashColumn::write_address_dec_ref_plan lowers the count of exactly the given address (external_body)", "TreeReader::get_node_children (external_body, unconstrained)",
                                "termination not proved (needs finite acyclic stored trees)", "a record never holds 2^62 operations"]},
+    "log_mask_walk": {"functions": ["index::IndexTable::{validate_plan,skip_plan}", "ref_count::RefCountTable::{validate_plan,skip_plan}"],
+                      "assumes": ["LogReader::read contract (fills the buffer or fails; position advances by the buffer length)", "u64::from_le_bytes uninterpreted (only equality of the decoded mask matters)", "vstd axiom_u64_trailing_zeros"]},
     "ref_counter": {"functions": ["table::ValueTable::change_ref (fragment)"], "assumes": ["Buf::read_rc models the entry buffer positioned at the counter"]},
     "U1": {
         "functions": ["index::Entry::{new,address_bits,last_address,address,partial_key,extract_key,is_empty,empty,as_u64,from_u64}",
